@@ -245,6 +245,6 @@ impl Prop for C03 {
         ]
     }
     fn fault_kinds(&self) -> Vec<&'static str> {
-        vec!["S1 RNG schedule", "S2 hash-order schedule", "F4 failed operation then continue", "K9 knob randomisation"]
+        vec!["S1 RNG schedule", "S2 hash-order schedule", "F4 failed operation then continue", "F6 repeated hand-over / replacement of an entry", "F8 values decoded from another producer's encoding", "K9 knob randomisation"]
     }
 }
